@@ -1,7 +1,7 @@
 """C08 — fit ends in a coherent fitted object or a clean AssertionError."""
 import json, math, random, warnings
 import numpy as np, pandas as pd
-from . import core, fitgen, c04
+from . import core, fitgen, c04, pipe
 
 
 def gen_degenerate(rng, target):
@@ -156,8 +156,9 @@ def worker(args):
     n, seed = args
     core.import_repo()
     rng = random.Random(seed)
+    drv = core.Driver()
     fails, sample, sigs = [], None, set()
-    stats = {"cases": 0, "ok": 0, "assertion": 0, "other_exception": {}, "classes": {}, "shapes": {}}
+    stats = {"cases": 0, "ok": 0, "assertion": 0, "other_exception": {}, "classes": {}, "shapes": {}, "pipeline_model": {}}
     for _ in range(n):
         what = rng.choice(["carver", "discretizer", "discretizer"])
         target = rng.choice(["binary", "binary", "continuous", "multiclass"]) if what == "carver" else rng.choice(["binary", "continuous"])
@@ -194,12 +195,16 @@ def worker(args):
             continue
         stats["ok"] += 1
         fs = coherent(obj, ds, cls)
+        if what == "discretizer":
+            # the fitted values_orders against the Lean model of the whole class (Model/Pipeline.lean)
+            fs += pipe.compare(drv, cls, obj, ds, cfg["min_freq"], cfg.get("markers", {}), stats["pipeline_model"])
         for f in fs:
             f["class"] = cls; f["case"] = case
         fails += fs
         sigs.add(json.dumps(case["X"])[:3000] + cls)
         if sample is None:
             sample = {"class": cls, "cfg": cfg, "kinds": ds["kinds"], "rows": len(ds["X"])}
+    drv.close()
     return fails[:8], len(fails), stats, sample, len(sigs)
 
 
